@@ -191,7 +191,11 @@ def run(ctx):
         p = (int(rng.integers(-c - 1, fy + c + 2)), int(rng.integers(-c - 1, fx + c + 2)))
         spare = int(rng.integers(0, 3))
         fmt = SPARSE_FORMATS[(k // 2) % 4] if k % 2 == 0 else None
-        fill = float(rng.choice([0, SENT]))
+        fill = float(rng.choice([0, SENT, np.nan, np.inf, -np.inf]))        # also buffers that hold non-finite leftovers
+        if k % 6 == 5:
+            # windows astronomically far outside (64-bit peak coordinates): still all zeros, no wrap-around of the coordinate arithmetic
+            far = int(rng.choice([2 ** 31, 2 ** 32, -2 ** 32, 3 * 2 ** 32, 2 ** 40, 2 ** 62, -2 ** 62])) + int(rng.integers(-c, c + 1))
+            p = (far, p[1]) if rng.integers(0, 2) else (p[0], far)
         outdt = np.float64 if np.dtype(dt).itemsize == 8 else np.float32
         fail = oracle_case(vals, c, 2 * c, 2 * c, [p], fill, outdt, spare, fmt)
         ctx.count(2, key=('spare/sparse', fy, fx, c, p, spare, fmt, fill, str(np.dtype(dt))))
